@@ -62,7 +62,7 @@ namespace
         int         nlog = 0;
         bool        log_overflow = false;
         std::size_t max_node = 48, max_array = std::size_t(1) << 20, max_align = 64;
-        std::size_t bump = 0;
+        std::size_t bump = 1; // deliberately misaligned: a block is aligned only as far as the leaf was asked to
         long        oversized_nodes = 0;
         alignas(64) unsigned char arena[ARENA];
 
@@ -88,7 +88,7 @@ namespace
             nused        = 0;
             nlog         = 0;
             log_overflow = false;
-            bump         = 0;
+            bump         = 1;
         }
         event* push(u8 kind, int h)
         {
@@ -444,6 +444,17 @@ namespace
         RC.key.word(0xA000 + (e.h % NPOS) * 16 + e.array * 2 + (t.n_full ? 1 : 0));
         if (e.p != p)
             v.set("pointer-differs", what + ": returned pointer is not the block the leaf handed out");
+        {
+            // C02 for adapters: the returned memory honours the requested alignment (and the minimum of an
+            // outermost aligned_allocator); the leaf hands out memory aligned exactly as far as it was asked to
+            std::size_t need = align;
+            if (c.root_aligned && RC.envs[0].min_align_[0] > need)
+                need = RC.envs[0].min_align_[0];
+            if (need && reinterpret_cast<std::uintptr_t>(p) % need != 0)
+                v.set("returned-pointer-underaligned",
+                      what + fmt(": returned pointer is not aligned to %zu (leaf was asked for alignment %zu)",
+                                 need, e.align));
+        }
         if (e.count * e.size < count * size)
             v.set("leaf-request-too-small",
                   what + ": leaf was asked for " + shape_str(e.array, e.count, e.size, e.align));
@@ -778,6 +789,38 @@ namespace
         }
         tally tl = count_events(from);
         RC.key.word(0x7000 + t.kind * 16 + threw);
+        if (t.kind == TK_UNIQUE_THROW || t.kind == TK_UNIQUE_ANY_THROW || t.kind == TK_SHARED_THROW)
+        {
+            // the constructor of T throws: the exception must come out and the ledger must be balanced
+            if (!threw && tl.n_alloc)
+                v.set("constructor-exception-swallowed", what + ": the exception of T's constructor did not reach the caller");
+            if (tl.n_bad)
+                v.set(tl.bad->bad == 3 ? "released-to-wrong-leaf" : "leaf-misuse", what + ": " + bad_text(*tl.bad));
+            if (tl.n_alloc > tl.n_free)
+                v.set("constructor-exception-leaked-block",
+                      what + fmt(": constructor threw, %d leaf allocation(s) but %d release(s): ", tl.n_alloc, tl.n_free)
+                          + shape_str(tl.alloc->array, tl.alloc->count, tl.alloc->size, tl.alloc->align)
+                          + " is never given back");
+            else if (tl.n_alloc > 1 || tl.n_free > tl.n_alloc)
+                v.set("not-exactly-one-leaf-allocation", what + fmt(": %d leaf allocations, %d releases", tl.n_alloc, tl.n_free));
+            else if (tl.n_alloc == 1)
+            {
+                const event& f = *tl.free_;
+                if (f.bad)
+                    v.set("release-parameters-differ",
+                          what + ": leaf allocated " + shape_str(f.aarray, f.acount, f.asize, f.aalign)
+                              + " but was released with " + shape_str(f.array, f.count, f.size, f.align));
+                else if (f.h != tl.alloc->h || f.p != tl.alloc->p)
+                    v.set("released-to-wrong-leaf", what + ": released to another leaf / another block");
+                if (tl.alloc->count * tl.alloc->size < t.size || tl.alloc->align < t.align)
+                    v.set("leaf-request-too-small", what + ": leaf was asked for "
+                                                        + shape_str(tl.alloc->array, tl.alloc->count, tl.alloc->size, tl.alloc->align));
+            }
+            else if (!tl.n_full && !c.has_null)
+                v.set("request-not-forwarded", what + ": helper failed before any leaf allocator was asked");
+            finish_case(c, v);
+            return;
+        }
         bool poly = t.kind == TK_POLY || t.kind == TK_POLY_ANY;
         if (tl.n_bad)
         {
@@ -1441,7 +1484,7 @@ int main(int argc, char** argv)
              "every ordered pair (any shape, " + std::string(thorough ? "any shape with alignment 1/8/64/max" : "one of the 7 alphabet shapes") + ") released in both orders; every operation sequence up to depth "
              + std::to_string(thorough ? 4 : 3)
              + " over {7 request shapes, release k-th oldest, move-construct, move-assign, try-release of a "
-               "foreign block}; typed helpers x value types x n 1/2/5. A case class is the sequence of "
+               "foreign block}; typed helpers (incl. element types whose constructor throws) x value types x n 1/2/5. A case class is the sequence of "
                "(operation kind, success, serving leaf position, refusals); distinct_nontrivial counts the "
                "distinct classes that reached the oracle")
         .raw("samples", samples.done())
